@@ -130,7 +130,8 @@ Definition none_val : str := s "None".           (* canon(None) *)
 (* ---------- what the theorems need to know about Pipeline.root_args (Pipe.root_args mirrors _compute_arg_mapping;
    its characterisation is C02's subject): the reported tuple consists of non-outputs and contains every name that
    the evaluation of the output reads from the keywords / defaults, i.e. every unbound non-output parameter of a
-   function reachable from it through unbound parameters.  Decidable, checked on every generated case. ---------- *)
+   function reachable from it through unbound parameters.  Decidable; PROVED for every well-formed pipeline in
+   Proofs/RootArgsFacts.v (roots_okb_of_wf), so it is no side condition of the final theorems. ---------- *)
 Fixpoint reads_ok (fuel : nat) (p : pipeline) (ra : list str) (o : str) {struct fuel} : bool :=
   match fuel with
   | O => true
